@@ -179,6 +179,11 @@ def DOCS():
                                               SEL('english'), RAW('\n\\label{q}\n'), W('B')), None)
     d['optarg'] = ('en-GB', '', seq(W('A b '), lambda b: b.fl('german', W('eins zwei'), '[date]'),
                                     W(' c d.')), 2)
+    # a short insertion directly followed by text of a third language
+    d['ins_then_third'] = ('en-GB', '', seq(W('Alpha beta '), FL('german', W('eins')),
+                                           FL('french', W('un deux trois quatre cinq six')), W(' gamma delta.')), None)
+    d['ins_then_third_short'] = ('en-GB', '', seq(W('Alpha beta '), FL('german', W('eins')),
+                                                 FL('french', W('un')), W(' gamma delta.')), None)
     # detached flows behind a nested region that names the language already in force
     d['nested_same_then_footnote'] = ('en-GB', '', seq(W('A b '), FL('german', seq(
         W('eins '), FL('german', W('zwei')), W(' drei'), GRP('\\footnote{', W('Fuß note')), W(' vier'))),
@@ -208,7 +213,7 @@ def DOCS():
     return d
 
 
-GLUE_OK = {'env_ends_fl'}
+GLUE_OK = {'env_ends_fl', 'ins_then_third', 'ins_then_third_short'}
 
 
 def build_doc(name, main_override=None):
